@@ -19,7 +19,7 @@ META = {"engine": "A floscript", "technique": "runtime trace monitor vs exact-ra
                       "outline change, and every timeout/repeat transition tick with the first evaluation at which the exact clock reaches it.",
         "level_note": "Programs are restricted to clock-driven transitions without entry guards so the expected transition is fully determined."}
 
-TICKS = ["0.0625", "0.125", "0.25", "0.0078125", "0.1", "0.05", "0.2", "0.3"]   # 1/128: exact, but 7 decimals
+TICKS = ["0.0625", "0.125", "0.25", "0.0078125", "0.0009765625", "0.1", "0.05", "0.2", "0.3"]   # 1/128 and 1/1024: exact, but 7 and 10 decimals
 
 
 def dyadic(fr):
